@@ -485,6 +485,8 @@ fn exec_loop_case(ops: &[String], run: &mut Run) {
         let mut reference: Reference = BTreeMap::new();
         // messages sent but not yet handled, for the oracle's replay of the property in FIFO order
         let mut pending: Vec<(u64, String)> = vec![];
+        let mut quality: BTreeMap<u64, (bool, bool)> = BTreeMap::new();
+        let mut expected_used: Vec<u64> = vec![];
         let mut key = String::new();
         let mut interesting = false;
         for op in ops {
@@ -508,6 +510,7 @@ fn exec_loop_case(ops: &[String], run: &mut Run) {
                 ("add", _) => {
                     sources.insert(id, wr.add_source(ClockId(id), SourceConfig::default()));
                     reference.insert(id, (false, false));
+                    quality.remove(&id);
                     key.push('a');
                     run.end_op("ok");
                 }
@@ -537,7 +540,7 @@ fn exec_loop_case(ops: &[String], run: &mut Run) {
                 ("send", Some(x)) if x.starts_with("snap=") => {
                     let Some(snap) = parse_cand(id, 100, &x[5..]) else { run.end_op("bad-op"); continue };
                     let _ = tx.send((ClockId(id), WrapperMessage::SourceMessage(KalmanSourceMessage { inner: snap })));
-                    pending.push((id, "m".into()));
+                    pending.push((id, format!("m{}", &x[5..])));
                     key.push('m');
                     run.end_op("ok");
                 }
@@ -547,7 +550,12 @@ fn exec_loop_case(ops: &[String], run: &mut Run) {
                     }
                     let calls = clock.take();
                     let (snapshot, used) = wr.synchronization_state();
-                    // oracle: replay the property's bookkeeping over the handled messages in send order
+                    // oracle: replay the property's bookkeeping over the handled messages in send order and compute,
+                    // from it alone, the set of sources the controller must report as used: at every handled
+                    // measurement of a registered source the candidates are registered ∧ last-usable ∧ has-snapshot;
+                    // by construction of this stream all acceptable candidates agree, so the selection succeeds iff
+                    // the acceptable non-periodic candidates reach the minimum, and then exactly the acceptable
+                    // candidates are used
                     let mut last_cands: Option<Vec<u64>> = None;
                     for (pid, kind) in pending.drain(..) {
                         match kind.as_str() {
@@ -558,15 +566,37 @@ fn exec_loop_case(ops: &[String], run: &mut Run) {
                             }
                             "d" => {
                                 reference.remove(&pid);
+                                quality.remove(&pid);
                             }
                             _ => {
                                 if let Some(e) = reference.get_mut(&pid) {
                                     e.0 = true;
-                                    last_cands = Some(reference_candidates(&reference));
+                                    if let Some(sn) = parse_cand(pid, 100, &kind[1..]) {
+                                        let radius = sn.offset_uncertainty() * cfg.ws + sn.delay * cfg.wd;
+                                        let good = sn.leap_indicator.is_synchronized() && radius <= cfg.mu;
+                                        quality.insert(pid, (good, sn.period.is_some()));
+                                    }
+                                    let cands = reference_candidates(&reference);
+                                    let good: Vec<u64> = cands.iter().copied().filter(|k| quality.get(k).map_or(false, |q| q.0)).collect();
+                                    let voters = good.iter().filter(|k| !quality[*k].1).count();
+                                    if voters >= cfg.min && voters > 0 {
+                                        expected_used = good;
+                                    }
+                                    last_cands = Some(cands);
                                 }
                             }
                         }
                     }
+                    let mut used_ids: Vec<u64> = used.iter().map(|c| c.0).collect();
+                    used_ids.sort();
+                    if used_ids != expected_used {
+                        run.oracle_fail(
+                            "used_is_candidate_set",
+                            &format!("used={} want={}", common::comma_list(&used_ids), common::comma_list(&expected_used)),
+                            &format!("synchronization_state reports used sources {:?}; registered∧usable∧reported acceptable sources at the last successful update: {:?}", used_ids, expected_used),
+                        );
+                    }
+                    run.hit(if expected_used.is_empty() { "used-set-checked-empty" } else { "used-set-checked-nonempty" });
                     if !calls.is_empty() {
                         interesting = true;
                         run.hit("run-with-calls");
